@@ -685,8 +685,6 @@ class PanicAnalysis:
                 elif rk == "RangeFrom":
                     a = tr.lin(r[3][0])
                     ok = st.entails_le(a - L)
-            if not ok and __import__("os").environ.get("MHSA_DEBUG_LEN"):
-                print("DEBUG base", term_s(base)[:600]); print("DEBUG idx ", term_s(idx)[:900])
             self.record(fn, "call", "drain|%s" % desc[:110], desc, loc, e[1], ok, "" if ok else "range end <= len not entailed")
             return
         if kind == "copy-within":
